@@ -61,10 +61,112 @@ def bounded_checks(tier, seed):
                 "failed": res is not None, "input": res, "output": outp[-800:]})
     # the field-merge rule is what guarantees that a response key has one shape: its bounded reference
     # comparison (props/C14_ref.py) stands in here too
+    out += _oneof_search()
     from .C14 import bounded_checks as b14
     for bc in b14(tier, seed):
         out.append(dict(bc, id=bc["id"].replace("C14/", "C13/")))
     return out
+
+
+ONEOF_SDL = '''
+input OO @oneOf { a: String b: Int self: OO }
+input Wrap { o: OO onn: OO! os: [OO] }
+type Query { g(arg: OO): String f(arg: OO!): String h(arg: [OO]): String k(arg: [OO!]!): String w(arg: Wrap): String }
+'''
+
+WITNESSES = {
+ "F28-oneof-field-variable-in-a-non-null-position": r'''
+from graphql import build_schema, parse, validate
+schema = build_schema(ONEOF_SDL)
+for q in ("query ($v: String) { f(arg: {a: $v}) }", "query ($v: String) { k(arg: [{a: $v}]) }",
+          "query ($v: String) { w(arg: {onn: {a: $v}}) }", "query ($v: String) { g(arg: {a: $v}) }"):
+    errs = validate(schema, parse(q))
+    assert errs and "must be non-nullable to be used for OneOf" in errs[0].message, (q, errs)
+for q in ("query ($v: String!) { f(arg: {a: $v}) }", "query ($v: OO) { h(arg: [$v]) }", "query ($v: OO) { k(arg: [$v]) }"):
+    assert not [e for e in validate(schema, parse(q)) if "OneOf" in e.message], q
+'''.replace("ONEOF_SDL", repr(ONEOF_SDL)),
+ "K2-oneof-field-variable-in-a-bare-object-standing-for-a-list": r'''
+from graphql import build_schema, parse, validate, execute_sync
+schema = build_schema(ONEOF_SDL)
+doc = parse("query ($v: String) { h(arg: {a: $v}) }")
+assert validate(schema, doc), "accepted although $v may be null in a OneOf field"
+'''.replace("ONEOF_SDL", repr(ONEOF_SDL)),
+ "K3-interface-argument-default-not-repeated-by-the-implementation": r'''
+from graphql import build_schema, parse, validate, validate_schema, execute_sync
+schema = build_schema("interface I { f(a: Int! = 1): Int } type T implements I { f(a: Int!): Int } type Query { i: I }")
+assert not validate_schema(schema)
+doc = parse("{ i { f } }")
+assert not validate(schema, doc)
+r = execute_sync(schema, doc, {"i": {"__typename": "T", "f": 3}})
+assert not r.errors, r.errors
+''',
+}
+
+ONEOF_SEARCH = r'''
+import itertools, json
+from graphql import build_schema, parse, validate, execute_sync
+from graphql.execution.values import get_variable_values
+schema = build_schema(ONEOF_SDL)
+FIELDS = {"g": "OO", "f": "OO!", "h": "[OO]", "k": "[OO!]!", "w": "Wrap"}
+VALUES = {"g": ["{a: $v}", "{b: $v}", "{self: {a: $v}}", "$v"],
+          "f": ["{a: $v}", "{self: {b: $v}}", "$v"],
+          "h": ["[{a: $v}]", "[$v]", "$v", "[{self: {a: $v}}]"],       # (a bare object for the list: known finding K2)
+          "k": ["[{a: $v}]", "[$v]", "$v"],
+          "w": ["{o: {a: $v}}", "{onn: {a: $v}}", "{os: [{a: $v}]}", "{o: $v}", "{onn: $v}"]}
+VARDEFS = ["String", "String!", "String = \"x\"", "Int", "OO", "OO!", "[OO]"]
+MAPPINGS = [{}, {"v": None}, {"v": "s"}, {"v": 1}, {"v": {"a": "s"}}, {"v": {"a": None}}, {"v": [{"b": 1}]}]
+bad = None
+n = 0
+for (fname, _), vd in itertools.product(FIELDS.items(), VARDEFS):
+    for val in VALUES[fname]:
+        text = "query ($v: %s) { %s(arg: %s) }" % (vd, fname, val)
+        doc = parse(text)
+        if validate(schema, doc):
+            continue
+        for m in MAPPINGS:
+            vv = get_variable_values(schema, doc.definitions[0].variable_definitions, m)
+            if isinstance(vv, list):
+                continue                    # variable values rejected by variable coercion
+            n += 1
+            r = execute_sync(schema, doc, {k: "ok" for k in FIELDS}, variable_values=m)
+            if r.errors:
+                bad = {"document": text, "variables": m,
+                       "observed": "validate() and variable coercion accept, execution reports " + repr([e.message for e in r.errors])}
+                break
+        if bad:
+            break
+    if bad:
+        break
+print("ONEOF " + json.dumps(bad) + f" ({n} executions)")
+'''.replace("ONEOF_SDL", repr(ONEOF_SDL))
+
+
+def native_checks(tier, seed):
+    from .common import run_native
+    out = []
+    for name, code in WITNESSES.items():
+        rc, outp = run_native(code)
+        out.append({"id": f"C13/native/{name}", "failed": rc != 0, "output": outp, "input": code.strip()})
+    return out
+
+
+def _oneof_search():
+    import json
+    from .common import run_native
+    rc, outp = run_native(ONEOF_SEARCH, timeout=600)
+    res, ok = None, False
+    for line in outp.splitlines():
+        if line.startswith("ONEOF "):
+            res, ok = json.loads(line[6:line.rindex(" (")]), True
+    if not ok:
+        raise RuntimeError(outp[-600:])
+    return [{"id": "C13/bounded/accepted-variables-inside-oneof-positions",
+             "function": "VariablesInAllowedPositionRule (OneOf clause) / TypeInfo parent input type + coerce_argument",
+             "tool": "whatever validate() and variable coercion accept executes without errors, native",
+             "bound": "5 argument positions (OO, OO!, [OO], [OO!]!, an input object holding OO / OO! / [OO]) x 3-5 literal "
+                      "shapes with a variable x 7 variable types x 7 variable mappings; the bare-object-for-a-list "
+                      "shape is the recorded known finding K2 and is not generated",
+             "failed": res is not None, "input": res, "output": outp[-600:]}]
 
 
 def _lemmas():
